@@ -1,5 +1,6 @@
 (* The top-level loop of _tokenize (hand model, OptModel.tok_iter) over an arbitrary set of scanners,
-   and its instance with the scanners regenerated from options.py (Gen/OptSrc.v).
+   its instance with the scanners regenerated from options.py (Gen/OptSrc.v), used to relate the
+   translated generator tokenize_src to the hand model, and options_to_items_src.
    Definitions only; the proofs are in Opt/OptSrcCompose.v. *)
 From Coq Require Import List NArith Bool.
 From MV Require Import Base.PyStr.
